@@ -4,30 +4,32 @@ From Coq Require Import List NArith Bool Arith Lia Permutation. Import ListNotat
 From WV Require Import Gen.Ops Model.Common Model.IR Model.Traversal Proofs.Traversal.
 Local Open Scope nat_scope.
 
-(* The default bodies of the generated per-variant hooks must not re-visit the fields:
-   Instr::visit / visit_mut already call `e.visit(visitor)` after the hook.  These two
-   constants are REGENERATED from crates/macro/src/lib.rs; if a default hook recurses the
-   lemma below stops being provable and every operand is reported twice. *)
-Lemma hooks_do_not_recurse : default_hook_recurses = false /\ default_hook_mut_recurses = false.
-Proof. split; vm_compute; reflexivity. Qed.
+(* The default bodies of the generated per-variant hooks must not re-visit the fields, and
+   Instr::visit / visit_mut must call `e.visit(visitor)` after the hook.  These three
+   constants are REGENERATED from crates/macro/src/lib.rs and src/ir/mod.rs; if a default hook
+   recurses (every operand reported twice) or the fields are no longer visited after the hook
+   (no operand reported when the hooks are overridden) the lemma below stops being provable. *)
+Lemma hooks_do_not_recurse :
+  default_hook_recurses = false /\ default_hook_mut_recurses = false /\ visit_fields_after_hook = true.
+Proof. repeat split; vm_compute; reflexivity. Qed.
 
-Lemma ref_mult_false i : ref_mult false i = instr_refs i.
+Lemma ref_count_once i : ref_count false true i = instr_refs i.
 Proof. reflexivity. Qed.
 
 Lemma c16_refs_once_l : forall ov t,
   flat_map (fun e => match e with ERef sp id => [(sp, id)] | _ => [] end) (events ov t)
   = flat_map (fun x => instr_refs (fst x)) (instrs_in_order t).
 Proof.
-  intros ov t. rewrite in_order_refs. destruct hooks_do_not_recurse as [H _].
-  rewrite H, andb_false_r. reflexivity.
+  intros ov t. rewrite in_order_refs. destruct hooks_do_not_recurse as [H [_ Ha]].
+  rewrite H, Ha, andb_false_r. reflexivity.
 Qed.
 
 Lemma c16_mut_refs_once_l : forall ov order,
   flat_map (fun e => match e with ERef sp id => [(sp, id)] | _ => [] end) (flat_map (seq_events_mut ov) order)
   = flat_map (fun t => match t with T _ _ items _ => flat_map (fun x => instr_refs (shallow (fst x))) items end) order.
 Proof.
-  intros ov order. rewrite pre_order_refs. destruct hooks_do_not_recurse as [_ H].
-  rewrite H, andb_false_r. reflexivity.
+  intros ov order. rewrite pre_order_refs. destruct hooks_do_not_recurse as [_ [H Ha]].
+  rewrite H, Ha, andb_false_r. reflexivity.
 Qed.
 
 (* the whole mutable traversal, for every tree: defined, visits exactly the sequences of the
